@@ -175,6 +175,8 @@ def _sizes(rng, cls):
 def _material(rng, nucls):
     E = float(10.0 ** rng.uniform(-3, 3))
     nu = float(rng.uniform(-0.5, 0.49)) if nucls == "random" else float(nucls)
+    if nucls == "0" and rng.random() < 0.5:
+        nu = 0            # a Python integer zero is the same material as 0.0
     return E, nu
 
 
@@ -543,8 +545,14 @@ def case_transpose(case, ctx, pym):
     for _ in range(3):
         uu = rng.standard_normal(ndofs)
         yy = rng.standard_normal(P * nel)
-        Eu = applyE(uu.copy()).ravel()
-        Ny = applyN(yy.reshape(olead + (nel,)).copy())
+        arg_u, arg_y = uu.copy(), yy.reshape(olead + (nel,)).copy()
+        if rng.random() < 0.35:
+            # single-precision inputs (fields read from float32 files): the operators are the same double-precision matrices
+            arg_u, arg_y = arg_u.astype(np.float32), arg_y.astype(np.float32)
+            uu, yy = arg_u.astype(float), arg_y.astype(float).ravel()
+            ctx.count("transpose_single_precision_probes")
+        Eu = applyE(arg_u).ravel()
+        Ny = applyN(arg_y)
         sE = np.abs(ME) @ np.abs(uu)
         sN = np.abs(ME.T) @ np.abs(yy)
         errE = float(np.max(np.abs(Eu - ME @ uu) / np.where(sE > 0, sE, 1.0)))
